@@ -45,10 +45,14 @@ inductive Fun
   | mem (fid t : Nat)                       -- `bind(mem_fun(*T, &Trk::run), F(fid))`
   | sref (fid v : Nat)                      -- `bind(F2(fid), std::ref(*S'))`
   | own (fid v : Nat) (t : Option Nat)      -- `OwnF{fid, shared_ptr<Holder{S'}>}` [bound to a method of `*T`]
+  | nest (fid v depth : Nat)                -- `bind(F3(fid), copy_of(*S'))`: a slot stored BY VALUE in the functor.
+                                            -- As a spec `v` is the variable to copy; in a stored functor `v` is the
+                                            -- anonymous variable that is the bound copy and `depth` (ghost) bounds the
+                                            -- nesting depth below it
 deriving Repr, DecidableEq
 
 def Fun.fid : Fun → Nat
-  | .fn f | .mem f _ | .sref f _ | .own f _ _ => f
+  | .fn f | .mem f _ | .sref f _ | .own f _ _ | .nest f _ _ => f
 
 /-- the trackable the functor refers to -/
 def Fun.trk : Fun → Option Nat
@@ -56,15 +60,25 @@ def Fun.trk : Fun → Option Nat
   | .own _ _ t => t
   | _ => none
 
-/-- the slot variable the functor refers to by reference -/
+/-- the slot variable the functor visits (by reference: `sref`; its own bound copy: `nest`) -/
 def Fun.ref : Fun → Option Nat
   | .sref _ v => some v
+  | .nest _ v _ => some v
   | _ => none
 
-/-- the slot variable whose holder the functor shares -/
+/-- the slot variable that dies with the last copy of the functor (the holder's: `own`; the bound copy: `nest`) -/
 def Fun.owns : Fun → Option Nat
   | .own _ v _ => some v
+  | .nest _ v _ => some v
   | _ => none
+
+def Fun.depth : Fun → Nat
+  | .nest _ _ d => d
+  | _ => 0
+
+/-- slot variables with a name `< anonBase` are the program's; `anonBase + n` is the copy bound in the functor of
+    representation `n` -/
+def anonBase : Nat := 1000000
 
 structure Rep where
   call   : Bool            -- `call_ != nullptr`
@@ -140,8 +154,8 @@ def Rep.refs (R : Rep) (v : Nat) : Bool :=
 
 def Rep.ownsVar (R : Rep) (v : Nat) : Bool :=
   match R.fn with
-  | some (.own _ v' _) => v' == v
-  | _ => false
+  | some f => f.owns == some v
+  | none => false
 
 /-- some live `sref` functor copy refers to `v` -/
 def pinned (s : State) (v : Nat) : Bool := anyRep s fun _ R => R.refs v
@@ -200,6 +214,7 @@ def bindFun (r : Nat) : Fun → State → State
   | .sref _ v, s => setParentIfNone v r s
   | .own _ _ (some t), s => trkAdd t r s
   | .own _ _ none, s => s
+  | .nest _ v _, s => setParentIfNone v r s
 
 /-- `visit_each_trackable(slot_do_unbind(r), functor)` -/
 def unbindFun (r : Nat) : Fun → State → State
@@ -208,23 +223,84 @@ def unbindFun (r : Nat) : Fun → State → State
   | .sref _ v, s => unsetParentIf v r s
   | .own _ _ (some t), s => trkRemove t r s
   | .own _ _ none, s => s
+  | .nest _ v _, s => unsetParentIf v r s
 
 /-- allocate representation `s.nextRep` -/
 def allocRep (R : Rep) (s : State) : State :=
   { s.setRep s.nextRep (some R) with nextRep := s.nextRep + 1 }
 
-/-- `new typed_slot_rep<T>(functor)` (+ `call_ = slot_call::address()`); the new rep is `s.nextRep` -/
-def newRep (f : Fun) (s : State) : State :=
-  bindFun s.nextRep f (allocRep ⟨true, none, some f, []⟩ s)
+/-- the last two steps of constructing a representation `n` whose functor binds a slot by value: the functor (with
+    the bound copy `j`, already constructed) is stored, then `visit_each_trackable(slot_do_bind(n), functor)` makes
+    `n` the parent of the copy's representation -/
+def nestFinish (n fid dd j : Nat) (s : State) : State :=
+  setParentIfNone j n (s.modRep n fun N => { N with fn := some (.nest fid j dd) })
+
+/-- the bind visit of a clone.  `ext = false`: the clone is made while a *temporary* copy of the same slot is alive
+    (`{ slot p(*S'); S = slot(bind(f, p)); }`: `p` was copy-constructed first, its functor took every free
+    `parent_` link of the slot variables it refers to, and gives them back when it dies at the end of the
+    statement) — so this clone's `sref` functor finds no free link: net effect, it binds nothing outside. -/
+def bindFunX (ext : Bool) (r : Nat) (f : Fun) (s : State) : State :=
+  match ext, f with
+  | false, .sref _ _ => s
+  | _, f => bindFun r f s
+
+/-- `r->clone()` with nesting budget `d`; the new rep is `s.nextRep`.  For a functor that binds a slot by value:
+    the representation object exists first (`slot_rep(call_)`), then the functor is copied — which copy-constructs
+    the bound slot `anonBase + n` from the original's (`slot_base(const slot_base&)`: clone, or the default slot
+    for an invalidated one) — then the bind visit. -/
+def cloneRepD (ext : Bool) : Nat → Nat → State → State
+  | d, r, s =>
+    match s.reps r with
+    | none => allocRep ⟨false, none, none, []⟩ s
+    | some R =>
+      match R.fn with
+      | none => allocRep ⟨R.call, none, none, []⟩ s
+      | some (.nest fid i dd) =>
+        (match d with
+         | 0 => allocRep ⟨R.call, none, none, []⟩ s
+         | d' + 1 =>
+           let s1 := allocRep ⟨R.call, none, none, []⟩ s
+           let j := anonBase + s.nextRep
+           nestFinish s.nextRep fid dd j
+             (match s1.slots i with
+              | none => s1.setSlot j (some ⟨none, false⟩)
+              | some X =>
+                match X.rep with
+                | none => s1.setSlot j (some ⟨none, X.blocked⟩)
+                | some q =>
+                  if (match s1.reps q with | some Q => !Q.call | none => true)
+                  then s1.setSlot j (some ⟨none, false⟩)
+                  else (cloneRepD ext d' q s1).setSlot j (some ⟨some s1.nextRep, X.blocked⟩)))
+      | some f => bindFunX ext s.nextRep f (allocRep ⟨R.call, none, some f, []⟩ s)
+
+/-- nesting depth recorded in the functor of representation `r` -/
+def depthOfRep (s : State) (r : Nat) : Nat :=
+  match s.reps r with
+  | some R => (match R.fn with | some f => f.depth | none => 0)
+  | none => 0
 
 /-- `r->clone()`; the new rep is `s.nextRep` -/
-def cloneRep (r : Nat) (s : State) : State :=
-  match s.reps r with
-  | none => allocRep ⟨false, none, none, []⟩ s
-  | some R =>
-    match R.fn with
-    | none => allocRep ⟨R.call, none, none, []⟩ s
-    | some f => bindFun s.nextRep f (allocRep ⟨R.call, none, some f, []⟩ s)
+def cloneRep (r : Nat) (s : State) : State := cloneRepD true (depthOfRep s r) r s
+
+/-- `new typed_slot_rep<T>(functor)` (+ `call_ = slot_call::address()`); the new rep is `s.nextRep`.  For the spec
+    `nest:<fid>:S'` — `{ slot p(*S'); S = slot(bind(F(fid), p)); }` — the functor binds a copy of the named
+    variable `S'`, made while the temporary `p` is alive (`bindFunX false`). -/
+def newRep (f : Fun) (s : State) : State :=
+  match f with
+  | .nest fid i _ =>
+    let s1 := allocRep ⟨true, none, none, []⟩ s
+    let j := anonBase + s.nextRep
+    match s1.slots i with
+    | none => nestFinish s.nextRep fid 1 j (s1.setSlot j (some ⟨none, false⟩))
+    | some X =>
+      match X.rep with
+      | none => nestFinish s.nextRep fid 1 j (s1.setSlot j (some ⟨none, X.blocked⟩))
+      | some q =>
+        if (match s1.reps q with | some Q => !Q.call | none => true)
+        then nestFinish s.nextRep fid 1 j (s1.setSlot j (some ⟨none, false⟩))
+        else nestFinish s.nextRep fid (depthOfRep s q + 1) j
+          ((cloneRepD false (depthOfRep s q) q s1).setSlot j (some ⟨some s1.nextRep, X.blocked⟩))
+  | f => bindFun s.nextRep f (allocRep ⟨true, none, some f, []⟩ s)
 
 /-! ### destruction -/
 
@@ -364,7 +440,7 @@ def callVar (s : State) : Nat → Nat → Nat → List String × Nat
           if !R.call then ([], 0) else
           match R.fn with
           | none => ([], 0)
-          | some (.sref fid v') =>
+          | some (.sref fid v') | some (.nest fid v' _) =>
             (match n with
              | 0 => ([callLine (maxDepth - n) fid a], (fid * 10 + a) % 97)
              | n' + 1 =>
@@ -392,6 +468,29 @@ def deadS (s : State) (v : Nat) : Bool := (s.slots v).isNone
 def deadT (s : State) (t : Nat) : Bool := (s.trks t).isNone
 def deadC (s : State) (c : Nat) : Bool := (s.conns c).isNone
 
+def Fun.names : Fun → List Nat × List Nat     -- (slot names, trackable names)
+  | .fn _ => ([], [])
+  | .mem _ t => ([], [t])
+  | .sref _ v => ([v], [])
+  | .own _ v t => ([v], t.toList)
+  | .nest _ v _ => ([v], [])
+
+/-- (slot, trackable, connection) names an operation mentions -/
+def Op.names : Op → List Nat × List Nat × List Nat
+  | .newT t | .delT t | .notifyT t => ([], [t], [])
+  | .mkS v f | .setS v f => (v :: f.names.1, f.names.2, [])
+  | .mkS0 v | .clrS v | .delS v | .discS v | .blockS v _ | .unblockS v | .blockedS v | .emptyS v
+  | .boolS v | .parentS v | .callS v _ => ([v], [], [])
+  | .cpS a b | .mvS a b | .asgS a b | .masgS a b => ([a, b], [], [])
+  | .connS c v => ([v], [], [c])
+  | .cpC a b | .asgC a b => ([], [], [a, b])
+  | .newC c | .delC c | .discC c | .connectedC c | .emptyC c | .blockedC c | .blockC c _ | .unblockC c =>
+    ([], [], [c])
+  | .live _ | .bad => ([], [], [])
+
+/-- every slot variable the operation names is one of the program's (not a bound copy inside a functor) -/
+def Op.named (op : Op) : Bool := op.names.1.all (· < anonBase)
+
 /-- may functor spec `f` be instantiated?  (`dead`, `owned`, `pinned`) -/
 def specCheck (s : State) : Fun → Option String
   | .fn _ => none
@@ -401,9 +500,10 @@ def specCheck (s : State) : Fun → Option String
     if deadS s v then some "dead" else
     if (match t with | some t' => deadT s t' | none => false) then some "dead" else
     if pinned s v then some "pinned" else none
+  | .nest _ v _ => if deadS s v then some "dead" else none
 
-/-- the refusal of an operation, `none` = it is performed -/
-def check (s : State) : Op → Option String
+/-- the refusal of an operation on program variables, `none` = it is performed -/
+def check0 (s : State) : Op → Option String
   | .newT t => if deadT s t then none else some "exists"
   | .delT t | .notifyT t => if deadT s t then some "dead" else none
   | .mkS v f => if !deadS s v then some "exists" else specCheck s f
@@ -433,6 +533,10 @@ def check (s : State) : Op → Option String
     if deadC s c then some "dead" else none
   | .live _ => none
   | .bad => some "badop"
+
+/-- the refusal of an operation, `none` = it is performed -/
+def check (s : State) (op : Op) : Option String :=
+  if op.named then check0 s op else some "badop"
 
 /-- the tail shared by both assignment operators: `if (rep_) { new_rep_->set_parent(rep_->parent_, …);
     auto old_rep_ = rep_; rep_ = new_rep_; delete old_rep_; } else rep_ = new_rep_;` -/
@@ -593,25 +697,6 @@ def run (ops : List Op) : State := ops.foldl (fun s op => stepState op s) State.
 
 /-! ### teardown: what the harness does with everything that is left -/
 
-def Fun.names : Fun → List Nat × List Nat     -- (slot names, trackable names)
-  | .fn _ => ([], [])
-  | .mem _ t => ([], [t])
-  | .sref _ v => ([v], [])
-  | .own _ v t => ([v], t.toList)
-
-/-- (slot, trackable, connection) names an operation mentions -/
-def Op.names : Op → List Nat × List Nat × List Nat
-  | .newT t | .delT t | .notifyT t => ([], [t], [])
-  | .mkS v f | .setS v f => (v :: f.names.1, f.names.2, [])
-  | .mkS0 v | .clrS v | .delS v | .discS v | .blockS v _ | .unblockS v | .blockedS v | .emptyS v
-  | .boolS v | .parentS v | .callS v _ => ([v], [], [])
-  | .cpS a b | .mvS a b | .asgS a b | .masgS a b => ([a, b], [], [])
-  | .connS c v => ([v], [], [c])
-  | .cpC a b | .asgC a b => ([], [], [a, b])
-  | .newC c | .delC c | .discC c | .connectedC c | .emptyC c | .blockedC c | .blockC c _ | .unblockC c =>
-    ([], [], [c])
-  | .live _ | .bad => ([], [], [])
-
 def upTo (xs : List Nat) : List Nat := List.range (xs.foldl max 0 + 1)
 
 /-- connections, then every slot variable is emptied (`*s = slot()`), then destroyed, then the trackables, then
@@ -639,6 +724,7 @@ def parseFun (w : String) : Option Fun :=
   | ["sref", f, v] => do some (.sref (← f.toNat?) (← parseName 'S' v))
   | ["own", f, v] => do some (.own (← f.toNat?) (← parseName 'S' v) none)
   | ["own", f, v, t] => do some (.own (← f.toNat?) (← parseName 'S' v) (some (← parseName 'T' t)))
+  | ["nest", f, v] => do some (.nest (← f.toNat?) (← parseName 'S' v) 0)
   | _ => none
 
 def parseBool (w : String) : Option Bool :=
